@@ -133,6 +133,8 @@ func runConc(c *sup.Child, b sup.Batch) {
 			nfs := &noisyFS{innerFS: inner, seed: cp.seed, level: cp.level}
 			pv := newProvider(cp.p, nfs, cp.cached)
 			results := make([][]callRes, cp.g)
+			var directExec atomic.Int64
+			defer func() { r.AddObs("conc_base_or_layout_answers_executed_as_handed_out", directExec.Load()) }()
 			var entered, firstReturn atomic.Int64
 			firstReturn.Store(-1)
 			start := make(chan struct{})
@@ -156,7 +158,12 @@ func runConc(c *sup.Child, b sup.Batch) {
 							o = Obs{Err: true, Msg: err.Error()}
 						} else {
 							id = t.ID()
-							o = observe(t, q.K != 'V')
+							// every other plan: the callers execute the base / layout sets exactly as
+							// handed out, concurrently with the first requests of the others
+							o = observe(t, q.K != 'V' && idx%2 == 0)
+							if q.K != 'V' && idx%2 == 1 {
+								directExec.Add(1)
+							}
 						}
 						results[gi] = append(results[gi], callRes{q, o, id})
 					}
